@@ -87,6 +87,7 @@ Mix ==
                              "KnockOutModelGenes", "RemoveGenes", "RenameGene", "RenameReaction", "RenameMetabolite",
                              "SetObjective", "SetObjCoef", "SetDirection", "SetMedium", "GetMedium", "SwitchSolver",
                              "AddUserCons", "AddUserVar", "RemoveUserCons", "RemoveUserVar", "AddGroup", "RemoveGroup",
+                             "GroupAddMembers", "GroupRemoveMembers",
                              "Copy", "Enter", "Exit", "RoundTrip", "DetachedSetBounds", "RxnArith", "Merge", "SaveDoc", "LoadDoc", "BuildFromString", "BuildFromString",
                              "SetFunctional", "Repair", "ReAddDetached", "ReAddDetached", "AddArith", "FixObjective", "SetAttr", "SetTolerance">>
     [] Profile = "ctx" -> <<"Enter", "Enter", "Enter", "Exit", "Exit", "Exit", "AddReactions", "RemoveReactions",
@@ -101,13 +102,14 @@ Mix ==
                            "RxnKnockOut", "SetRule", "SetRule", "Enter", "Exit", "SetBounds", "AddReactions", "SetFunctional">>
     [] Profile = "copy" -> <<"Copy", "Copy", "AddReactions", "RemoveReactions", "RemoveMetabolites", "RxnAddMetabolites",
                              "RxnIMul", "SetBounds", "SetRule", "GeneKnockOut", "RemoveGenes", "RenameGene", "RenameReaction",
-                             "RenameMetabolite", "SetObjective", "SetDirection", "SetMedium", "AddUserCons", "AddGroup",
+                             "RenameMetabolite", "SetObjective", "SetDirection", "SetMedium", "AddUserCons", "AddGroup", "AddGroup",
+                             "GroupAddMembers", "GroupRemoveMembers",
                              "RemoveGroup", "Annotate", "Annotate", "Annotate", "Analyze", "Enter", "Exit", "SwitchSolver",
                              "RxnArith", "RxnArith", "Merge", "Merge", "AddArith", "AddArith", "AddArith", "SetAttr",
                              "SetAttr", "SetTolerance", "SetTolerance">>
     [] Profile = "io" -> <<"RoundTrip", "RoundTrip", "RoundTrip", "RoundTrip", "AddReactions", "RemoveReactions", "RxnAddMetabolites",
                            "SetBounds", "SetBounds", "SetLB", "SetUB", "SetRule", "SetObjective", "SetObjCoef",
-                           "SetDirection", "AddBoundary", "AddGroup", "Annotate", "Annotate", "Annotate", "RenameGene",
+                           "SetDirection", "AddBoundary", "AddGroup", "AddGroup", "GroupAddMembers", "GroupRemoveMembers", "Annotate", "Annotate", "Annotate", "RenameGene",
                            "AddMetabolites", "Copy", "SaveDoc", "SaveDoc", "LoadDoc", "LoadDoc", "SetAttr", "SetAttr",
                            "SetAttr">>
     [] Profile = "analyze" -> <<"Analyze", "Analyze", "Analyze", "Analyze", "FixObjective", "SetBounds", "SetObjective", "SetDirection",
@@ -211,6 +213,7 @@ DrawOp(r, S) ==
     [] k \in {"AddUserVar", "RemoveUserVar"} -> base @@ [name |-> Pick(<<"uv1", "uv2">>, d[8])]
     [] k = "AddGroup" -> base @@ [g |-> "grp1", members |-> IF d[8] % 2 = 0 THEN <<rx, mt>> ELSE <<rx, gn>>]
     [] k = "RemoveGroup" -> base @@ [g |-> "grp1"]
+    [] k \in {"GroupAddMembers", "GroupRemoveMembers"} -> base @@ [g |-> "grp1", members |-> IF d[8] % 3 = 0 THEN <<rx>> ELSE IF d[8] % 3 = 1 THEN <<mt, gn>> ELSE <<gn>>]
     [] k = "Annotate" -> base @@ [x |-> IF Profile = "io" /\ d[11] % 2 = 0 THEN "MODEL" ELSE Pick(<<rx, mt, gn, "MODEL">>, d[8]),
                                   v |-> 1 + (d[9] % 5), via |-> d[10] % 3]
     [] k = "SetAttr" ->
@@ -218,7 +221,7 @@ DrawOp(r, S) ==
          base @@ [field |-> f, x |-> IF f \in {"formula", "charge"} THEN mt ELSE IF f = "subsys" THEN rx ELSE Pick(<<rx, mt, gn>>, d[9]),
                   v |-> IF f = "charge" THEN Pick(<<99, 0, 2, -1>>, d[10]) ELSE 1 + (d[10] % 3)]
     [] k = "Copy" -> [a |-> k, s |-> 1, t |-> 2, kind |-> Pick(<<"copy", "deepcopy", "pickle">>, d[8])]
-    [] k = "Merge" -> [a |-> k, s |-> s, t |-> 3 - s]
+    [] k = "Merge" -> [a |-> k, s |-> s, t |-> 3 - s, obj |-> Pick(<<"left", "left", "right", "sum">>, d[8])]
     [] k = "AddArith" -> [a |-> k, s |-> s, t |-> IF d[10] % 3 = 0 THEN s ELSE 3 - s, r |-> rx, q |-> rx2,
                           kind |-> Pick(<<"add", "copy", "add", "sub", "mul">>, d[8]), k |-> Pick(<<2, -1>>, d[9]),
                           new |-> PickPresent(PlainRx, RxU \ C.rxns, d[11])]
@@ -268,7 +271,9 @@ CopyOps ==
    [a |-> "RxnIMul", s |-> 2, r |-> "r2", k |-> -1],
    [a |-> "SetRule", s |-> 2, r |-> "r3", rule |-> G("g2"), form |-> 1],
    [a |-> "GeneKnockOut", s |-> 1, g |-> "g1"],
-   [a |-> "Merge", s |-> 1, t |-> 2],
+   [a |-> "Merge", s |-> 1, t |-> 2, obj |-> "left"],
+   [a |-> "Merge", s |-> 2, t |-> 1, obj |-> "sum"],
+   [a |-> "SetDirection", s |-> 2, dir |-> "min"],
    [a |-> "Enter", s |-> 1], [a |-> "Exit", s |-> 1]}
 FullOps ==
   IF FullSet = "mid" THEN
